@@ -603,21 +603,28 @@ func (x *Exec) safetyCheckDiv(env *Env, r Term, rExpr ast.Expr, real bool) {
 }
 
 func (x *Exec) concat(a, b Term, env *Env) Term {
-	if x.termMode {
+	if x.termMode || x.noFacts > 0 {
 		unsupported("concatenation in term mode")
 	}
 	es := x.W.SeqElem(a.Sort)
 	arr := x.W.Fresh("cat", ArraySort(SInt, es))
 	la, lb := x.W.SeqLen(a), x.W.SeqLen(b)
+	c := x.W.Fresh("cat", a.Sort)
+	c.GoT = a.GoT
+	x.W.Facts = append(x.W.Facts, Eq(c, x.W.MkSeq(a.Sort, arr, IntLit(0), Arith("+", la, lb))).S)
 	x.W.nfresh++
 	q := fmt.Sprintf("q!%d", x.W.nfresh)
 	qi := T(q, SInt)
-	f1 := Implies(And(Cmp("<=", IntLit(0), qi), Cmp("<", qi, la)), Eq(Select(arr, qi), x.W.SeqAt(a, qi)))
-	f2 := Implies(And(Cmp("<=", IntLit(0), qi), Cmp("<", qi, lb)), Eq(Select(arr, Arith("+", la, qi)), x.W.SeqAt(b, qi)))
-	x.W.AddFact(env.pc, T("(forall (("+q+" Int)) (and "+f1.S+" "+f2.S+"))", SBool))
-	r := x.W.MkSeq(a.Sort, arr, IntLit(0), Arith("+", la, lb))
-	r.GoT = a.GoT
-	return r
+	// element-level statement (for E-matching): the first len(a) elements are a's, the rest are b's
+	body := Implies(And(Cmp("<=", IntLit(0), qi), Cmp("<", qi, Arith("+", la, lb))),
+		Eq(x.W.SeqAt(c, qi), Ite(Cmp("<", qi, la), x.W.SeqAt(a, qi), x.W.SeqAt(b, Arith("-", qi, la)))))
+	x.W.AddFact(env.pc, T("(forall (("+q+" Int)) (! "+body.S+" :pattern ("+x.W.SeqAt(c, qi).S+")))", SBool))
+	// and the two directions keyed on the operands' elements
+	f1 := Implies(And(Cmp("<=", IntLit(0), qi), Cmp("<", qi, la)), Eq(x.W.SeqAt(c, qi), x.W.SeqAt(a, qi)))
+	x.W.AddFact(env.pc, T("(forall (("+q+" Int)) (! "+f1.S+" :pattern ("+x.W.SeqAt(a, qi).S+")))", SBool))
+	f2 := Implies(And(Cmp("<=", IntLit(0), qi), Cmp("<", qi, lb)), Eq(x.W.SeqAt(c, Arith("+", la, qi)), x.W.SeqAt(b, qi)))
+	x.W.AddFact(env.pc, T("(forall (("+q+" Int)) (! "+f2.S+" :pattern ("+x.W.SeqAt(b, qi).S+")))", SBool))
+	return c
 }
 
 func (x *Exec) evalIndex(e *ast.IndexExpr, env *Env) Term {
